@@ -617,6 +617,8 @@ def check_deep_writers(prog, rep, rule):
             sliver_params = [p for p in params if p not in ('self', 'parent_node_id')]
             rep.instance(rule, f'{name} -> {call_name(c)} under {[norm(x, 50) for x in conds]}')
             for cond in conds:
+                if getattr(cond, '_guard', None) == 'Raise':
+                    continue        # a rejection: nothing at all is stored when it fails
                 for cj in conjuncts(canon(expand(cond, env))):
                     names = {n.id for n in ast.walk(cj) if isinstance(n, ast.Name)} - {'len', 'isinstance', 'list', 'dict'}
                     if not names or not names <= set(sliver_params):
